@@ -175,8 +175,11 @@ Proof.
 Qed.
 
 (* the library is added without overwriting any name the caller supplied *)
+Lemma inject_library_is_inject_names g : inject_library g = inject_names gen_script_functions g.
+Proof. unfold inject_library, inject_names. reflexivity. Qed.
+
 Theorem inject_preserves_host : forall g k v, env_get k g = Some v -> env_get k (inject_library g) = Some v.
-Proof. intros. apply (inject_names_preserves gen_script_functions). assumption. Qed.
+Proof. intros g k v H. rewrite inject_library_is_inject_names. apply inject_names_preserves. exact H. Qed.
 
 Lemma env_get_app_none {A} k (g : list (str * A)) x : env_get k g = None -> env_get k (g ++ [x]) = (if str_eqb k (fst x) then Some (snd x) else None).
 Proof.
@@ -201,4 +204,4 @@ Qed.
 
 Theorem inject_adds_missing : forall g k, env_get k g = None -> str_mem k gen_script_functions = true ->
   env_get k (inject_library g) = Some (VFun (FLib k)).
-Proof. intros. apply (inject_names_adds gen_script_functions); assumption. Qed.
+Proof. intros g k H1 H2. rewrite inject_library_is_inject_names. apply inject_names_adds; assumption. Qed.
